@@ -3672,7 +3672,7 @@ fn now_ms() -> u64 {
 
 #[cfg(kani)]
 #[path = "/verif/harness/ripd/continuities.rs"]
-mod verif_kani;
+pub mod verif_kani;
 
 #[cfg(test)]
 mod tests {
